@@ -502,6 +502,53 @@ pub fn gen(out: &mut Out, thorough: bool, focus: &str) {
         out.count_n("stream_wide_flat_containers", n);
         out.exhaustive.push("flat arrays and objects of every length 0..=40 under item limits len-1 / len / len+1, ten width limits around their one-line widths and two item-or-width limits; nested in an array under the three presets".into());
     }
+    // SCALE: strings, keys and containers just below / at / above 2^12 and 2^16 (block buffers, width
+    // counters, chunked writers, size caps): a 1/2/3/4-byte or escaped character at every offset
+    // around the boundary; containers whose one-line width crosses 65 535; long non-ASCII / escaped
+    // strings under width limits between their character width and their byte width
+    {
+        let mut n = 0u64;
+        let tails = ["e9", "20ac", "1f600", "22", "a", "1f", "7f"];
+        let bases: &[usize] = if thorough { &[4096, 8192, 65536] } else { &[4096, 65536] };
+        for &b in bases {
+            for off in 0..=8usize {
+                for (ti, t) in tails.iter().enumerate() {
+                    if !thorough && b > 4096 && (off + ti) % 3 != 0 { continue; }
+                    let body = format!("78*{}", b + off - 7);
+                    for p in ["compact", "pretty"] {
+                        if p == "pretty" && (off + ti) % 2 == 1 { continue; }
+                        l(format!("print {} [s{}.{}.74.61.69.6c;{{k{}.{}.6b;n}}]", p, body, t, body, t), out);
+                        n += 1;
+                    }
+                    if (off + ti) % 4 == 0 { l(format!("print compact s{}*{}.{}.{};", t, (b + off) / 2, t, "61*9"), out); n += 1; }
+                }
+            }
+        }
+        // one-line widths across 65 535: many small items, one long string member
+        for items in (if thorough { &[255usize, 4096, 10922, 10923, 21845, 21846, 32767, 32768, 40000][..] } else { &[4096usize, 21845, 21846, 32768][..] }) {
+            let arr = format!("[{}]", "#31;".repeat(*items));
+            let obj = format!("{{{}}}", (0..items / 4).map(|i| format!("k{:x};t", 0x61 + i % 26)).collect::<String>());
+            for p in ["compact", "inline", "pretty"] { l(format!("print {} {}", p, arr), out); l(format!("print {} [{}{}]", p, obj, arr), out); n += 2; }
+        }
+        for len in (if thorough { &[65520usize, 65530, 65531, 65532, 65533, 65534, 65535, 65536, 65537, 70000][..] } else { &[65531usize, 65533, 65535, 65536][..] }) {
+            for p in ["compact", "inline", "pretty"] { l(format!("print {} [s61*{};]", p, len), out); l(format!("print {} {{k61*{};[#31;]}}", p, len), out); n += 2; }
+        }
+        // width limits between the character width and the byte width of long strings
+        for (unit, chars) in [("e9", 40000usize), ("20ac", 30000), ("22", 35000), ("1f", 12000), ("e9", 3000)] {
+            let bytes = chars * match unit { "e9" => 2, "20ac" => 3, _ => 1 };
+            let printed = chars * match unit { "22" => 2, "1f" => 6, _ => 1 };
+            for w in [printed, printed + 2, printed + 4, printed + 6, printed + 8, printed + 12, (printed + bytes) / 2 + 7, bytes, bytes + 2, bytes + 4, bytes + 6, bytes + 8, bytes + 12, 2 * bytes + 20, chars, chars + 6, chars + 8] {
+                let mut f = base.clone();
+                f[6] = format!("W{}", w);
+                f[14] = format!("X2.{}", w);
+                l(format!("print {} [s{}*{};]", f.join(","), unit, chars), out);
+                l(format!("print {} {{k{}*{};#31;}}", f.join(","), unit, chars), out);
+                n += 2;
+            }
+        }
+        out.count_n("stream_scale", n);
+        out.exhaustive.push("scale: a plain / 2- / 3- / 4-byte / escaped character at 9 offsets around 4096 (8192) and 65536 in a string and a key; flat containers whose one-line width crosses 65 535; strings and keys of 65 520..70 000 characters; long non-ASCII / escaped strings under 17 width limits between their character width and byte width".into());
+    }
     // deep expanded chains x indent units, and large padding values: indentation and padding are
     // written by loops/chunks whose size boundaries (16, 32, 64, …) a shallow value never reaches
     {
